@@ -257,7 +257,7 @@ class ExprMixin:
         if isinstance(e.op, ast.Not): return VBool(z3.Not(self.truthy(v)))
         if isinstance(e.op, ast.USub):
             t, r = self.num(v, 'neg', p, e.lineno)
-            return VReal(-t) if r else VInt(-t)
+            return VReal(z3.simplify(-t)) if r else VInt(z3.simplify(-t))
         raise Undecided('unary op')
 
     def ev_BoolOp(self, e, p):
@@ -285,6 +285,31 @@ class ExprMixin:
         if isinstance(op, (ast.In, ast.NotIn)):
             t = self.contains(l, r, p, line)
             return t if isinstance(op, ast.In) else z3.Not(t)
+        if isinstance(l, VUnion) or isinstance(r, VUnion):
+            # comparable alternatives contribute their result; the others must be excluded (TypeError otherwise)
+            out = z3.BoolVal(False)
+            la = l.alts if isinstance(l, VUnion) else [(z3.BoolVal(True), l)]
+            rs = r.alts if isinstance(r, VUnion) else [(z3.BoolVal(True), r)]
+            for c1, x in la:
+                for c2, y in rs:
+                    ok = (isinstance(x, VTuple) and isinstance(y, VTuple)) or \
+                         (isinstance(x, (VInt, VReal, VBool)) and isinstance(y, (VInt, VReal, VBool)))
+                    if ok:
+                        self.guards.append(z3.And(c1, c2))
+                        try: out = z3.If(z3.And(c1, c2), self.compare(op, x, y, p, line), out)
+                        finally: self.guards.pop()
+                    else:
+                        self.vc('no-raise/compare-%s-with-%s@%d' % (type(x).__name__, type(y).__name__, line), p, z3.Not(z3.And(c1, c2)), line=line)
+            return out
+        if isinstance(l, VTuple) and isinstance(r, VTuple):
+            # lexicographic order of tuples
+            if len(l.items) != len(r.items): raise Undecided('comparison of tuples of different length')
+            strict = isinstance(op, (ast.Lt, ast.Gt)); lt = isinstance(op, (ast.Lt, ast.LtE))
+            out = z3.BoolVal(not strict)
+            for x, y in reversed(list(zip(l.items, r.items))):
+                a, _ = self.num(x, 'compare', p, line); b, _ = self.num(y, 'compare', p, line)
+                out = z3.Or(a < b if lt else a > b, z3.And(a == b, out))
+            return out
         a, ra = self.num(l, 'compare', p, line); b, rb = self.num(r, 'compare', p, line)
         if ra != rb:
             a = a if ra else z3.ToReal(a); b = b if rb else z3.ToReal(b)
@@ -336,9 +361,32 @@ class ExprMixin:
             return z3.BoolVal(False)          # different Python types never compare equal (int/str/tuple/list/enum)
         raise Undecided('equality of %r and %r (line %d)' % (l, r, line))
 
+    def atom_equal(self, a, b):
+        if isinstance(a, str) or isinstance(b, str): return z3.BoolVal(a == b) if (isinstance(a, str) and isinstance(b, str)) else None
+        if a[0] != b[0]: return None
+        if a[0] in ('int', 'real', 'bool', 'opt'): return a[1] == b[1]
+        if a[0] == 'tuple': return self.equal(a[1], b[1], None, 0)
+        if a[0] == 'val':
+            try: return self.equal(a[1], b[1], None, 0)
+            except Undecided: return None
+        if a[0] == 'pure' and a[1] == b[1] and len(a[2]) == len(b[2]):
+            ts = []
+            for x, y in zip(a[2], b[2]):
+                if x is y: continue
+                was = self.spec_mode; self.spec_mode = True
+                try: ts.append(self.equal(x, y, None, 0))
+                except Undecided: return None
+                finally: self.spec_mode = was
+            return z3.And(*ts) if ts else z3.BoolVal(True)
+        return None
+
     def str_equal(self, l, r):
         if l.atoms == r.atoms: return z3.BoolVal(True)
         la, ra = l.atoms, r.atoms
+        if any(isinstance(a, tuple) and a[0] == 'absent' for a in la + ra): return z3.BoolVal(False)    # label not present in the text
+        if len(la) == len(ra) and len(la) >= 1:          # atom-wise (sufficient; literals around numbers are not digits here: T5)
+            ts = [self.atom_equal(a, b) for a, b in zip(la, ra)]
+            if all(t is not None for t in ts): return z3.And(*ts)
         if all(isinstance(a, str) for a in la) and all(isinstance(a, str) for a in ra):
             return z3.BoolVal(''.join(la) == ''.join(ra))
         for a, b in ((la, ra), (ra, la)):      # X == ''  where X certainly contains a character
